@@ -45,7 +45,21 @@ def safeParams : List Param → Bool → Bool
      | none => false
      | some _ => safeParams ps true)     -- the text written after every parameter ends in a line break
 
-def safeDoc (is : List Item) : Bool := safeParams (paramsOf is) false
+/-- the text items in front of the first parameter, concatenated -/
+def leadText : List Item → Str
+  | Item.text t :: rest => t ++ leadText rest
+  | _ => []
+
+def endsWithNl (s : Str) : Bool :=
+  match s.getLast? with
+  | some c => c = '\n' || c = '\r'
+  | none => false
+
+/-- SafeDoc on an item sequence: every parameter has at least one component (`MSDParameter(())` prints "#;" which
+reads back as one empty component), and the parameters are safe starting from the recovery bit left by the text in
+front of the first parameter (a leading text token that ends in a line break sets it). -/
+def safeDoc (is : List Item) : Bool :=
+  (paramsOf is).all (fun p => !p.comps.isEmpty) && safeParams (paramsOf is) (endsWithNl (leadText is))
 
 structure Msd.Contract (M : Msd) : Prop where
   /-- rendering a safe document whose inter-parameter texts are blank and tokenizing it, strictly or not, gives
